@@ -47,10 +47,10 @@ CHECKS.update({
          "exhaustive table validation by TLC against Attrs.tla"),
  "C14": ("§6 C14", "Crash points x failure kinds x transports (shipped RemoteProxy+Channel over fake streams, AsyncProxy, shipped LocalProxy) x schedules on the real run()/shutdown(); TLC judges every execution with the C14 clauses of the reference semantics (no hang, error or logged remote error, every other simulator stopped exactly once, loop closed, nothing pending); the shutdown protocol incl. the open findings D11/D23 is model-checked in MosaikFaults.tla.",
          "fault enumeration judged by TLC trace validation + TLC model checking of MosaikFaults.tla"),
- "C15": ("§6 C15", "Adapters.tla states rejection and the per-version request shape; 288 rows (16 version strings x explicit api_version x remote stub behind the shipped RemoteProxy / in-process stubs with v3 and old signatures x type present/absent) with the exact requests received and the comparison with a 3.0 stub are validated by TLC.",
+ "C15": ("§6 C15", "Adapters.tla states rejection and the per-version request shape; 384 rows incl. failing-step rows (16 version strings x explicit api_version x remote stub behind the shipped RemoteProxy / in-process stubs with v3 and old signatures x type present/absent) with the exact requests received and the comparison with a 3.0 stub are validated by TLC.",
          "exhaustive table validation by TLC against Adapters.tla"),
- "C17": ("§6 C17", "Real-time runs on a virtual strictly increasing clock (no flakiness): pacing lower bound at every step begin, completion without internal error (incl. simulators in groups), set_event semantics (demand created / ignored with warning / refused outside real-time mode), no too-slow report for instant runs (open finding D19), rt_strict runs equal to a prefix of the non-strict runs (DetTrace); pacing/polling/set_event mechanism model-checked in MosaikRT.tla.",
-         "TLC trace validation on a virtual clock + TLC model checking of MosaikRT.tla"),
+ "C17": ("§6 C17", "Real-time runs on a virtual strictly increasing clock (no flakiness): pacing lower bound at every step begin, completion without internal error (incl. simulators in groups), set_event semantics (demand created / ignored with warning / refused outside real-time mode), no too-slow report for instant runs (open finding D19), rt_strict runs equal to a prefix of the non-strict runs (DetTrace); pacing/polling/set_event mechanism model-checked in MosaikRT.tla; external set_event calls at arbitrary wall-clock times: implementation-shaped polling model MosaikRTPoll.tla (negative control RefreshOnWake=FALSE) replayed into the code and validated against recorded executions (RTPollTrace.tla).",
+         "TLC trace validation on a virtual clock + TLC model checking of MosaikRT.tla and MosaikRTPoll.tla (bound to the code by replaying all terminal schedules and by RTPollTrace validation of recorded executions)"),
  "C18": ("§6 C18", "BulkConnect.tla models the helpers as nondeterministic processes (invariants + termination model-checked); the random source of mosaik.util is scripted so that ALL choice sequences for small sizes plus seeded larger runs (incl. exactly filled capacities) go through the real functions; TLC replays every recorded call sequence against the specification's rules.",
          "TLC model checking of BulkConnect.tla + exhaustive choice-sequence enumeration validated by TLC"),
 })
